@@ -225,7 +225,7 @@ def run_campaign(binary, prop, plan, lenscale, seed, thorough, param, logdir, ma
                  stall_s=900):
     """plan = [(stratum, cases, max_size)].  Runs one worker per entry, JOBS at a time.  Returns list of
     failure records {type: 'falsified'|'crash'|'hang', case: path, worker: id}"""
-    pending = [Worker(i, binary, prop, st, cases, size, lenscale, seed, thorough, param, logdir)
+    pending = [Worker(i, binary, prop, st, cases, size, lenscale, seed, thorough, (param % i) if "%d" in (param or "") else param, logdir)
                for i, (st, cases, size) in enumerate(plan)]
     running, failures = [], []
     lost = 0
@@ -443,8 +443,11 @@ def check(prop, tier):
                 fails = run_libfuzzer(binary, prop, st, seed, logdir)
                 lost = 0
             else:
-                fails, lost = run_campaign(binary, prop, st["plan"], st.get("lenscale", 1), seed,
-                                           thorough, st.get("param", ""), logdir)
+                plan = st["plan"]
+                if st.get("workers"):
+                    plan = [plan[0]] * st["workers"]
+                fails, lost = run_campaign(binary, prop, plan, st.get("lenscale", 1), seed,
+                                           thorough, st.get("param_per_worker") or st.get("param", ""), logdir)
             m = merge_logs(logdir)
             engines[st.get("engine", "rapidcheck") + ":" + st["name"]] = m["evaluations"]
             merge_into(merged_all, m)
